@@ -79,7 +79,7 @@ def scan(trace):
     """Counts that describe what the recorder exercised (non-vacuity) - not a verdict."""
     c = {k: 0 for k in ("histories", "epoch_ok", "epoch_failed", "skipped_before_start", "other_identifier",
                         "reductions", "start_epoch_seen", "minted_zero", "dust_epochs", "gauge_funded",
-                        "pi_none", "pi_gauges", "pi_mixed", "no_receivers", "single_receiver", "empty_address",
+                        "pi_none", "pi_zero", "pi_gauges", "pi_mixed", "no_receivers", "single_receiver", "empty_address",
                         "max_receivers", "max_epochs")}
     conf, prev, n_in = None, None, 0
     worst = None
@@ -250,7 +250,7 @@ def run(ctx):
                 cov["samples"].append({"trace_event": json.loads(ln)})
     counts, worst = scan(trace)
     for need in ("epoch_ok", "epoch_failed", "skipped_before_start", "other_identifier", "reductions", "start_epoch_seen",
-                 "minted_zero", "gauge_funded", "pi_none", "pi_gauges", "pi_mixed", "no_receivers", "single_receiver",
+                 "minted_zero", "gauge_funded", "pi_none", "pi_zero", "pi_gauges", "pi_mixed", "no_receivers", "single_receiver",
                  "empty_address"):
         if counts[need] == 0:
             raise Infra("recorder produced no %s: driver is not exercising the property" % need)
